@@ -26,7 +26,6 @@ qstr __CPROVER_uninterpreted_str_concat(qstr a, qstr b);
 qstr __CPROVER_uninterpreted_str_append_char(qstr a, int c);
 static inline qstr qstr_arg1(qstr fmt, qstr a, bool fixed_text) { qstr r = __CPROVER_uninterpreted_str_arg1(fmt, a); __CPROVER_assume(!fixed_text || r != 0); return r; }
 static inline qstr qstr_arg2(qstr fmt, qstr a, qstr b, bool fixed_text) { qstr r = __CPROVER_uninterpreted_str_arg2(fmt, a, b); __CPROVER_assume(!fixed_text || r != 0); return r; }
-static inline qstr qstr_concat(qstr a, qstr b) { if (a == 0) return b; if (b == 0) return a; qstr r = __CPROVER_uninterpreted_str_concat(a, b); __CPROVER_assume(r != 0); return r; }
 static inline qstr qstr_append_char(qstr a, quint16 c) { qstr r = __CPROVER_uninterpreted_str_append_char(a, c); __CPROVER_assume(r != 0); return r; }
 
 /* QByteArray::split(sep) / QString::fromUtf8: uninterpreted functions of the bytes (A-SPLIT: split yields at least one part; part i and the
